@@ -1122,10 +1122,13 @@ tp_shutdown(tp_p tp) {
 	if (0 != tp->shutdown)
 		return;
 	tp->shutdown ++;
-	/* Private virtual thread. */
-	tp->pvt->state = TP_THREAD_STATE_STOP;
-	if (NULL != tp->s.tpt_on_stop) {
-		tp->s.tpt_on_stop(tp->pvt);
+	/* Private virtual thread: not started if tp_create() failed early,
+	 * do not call stop hook without start hook. */
+	if (TP_THREAD_STATE_STOP != tp->pvt->state) {
+		tp->pvt->state = TP_THREAD_STATE_STOP;
+		if (NULL != tp->s.tpt_on_stop) {
+			tp->s.tpt_on_stop(tp->pvt);
+		}
 	}
 	/* Shutdown threads. */
 	for (size_t i = 0; i < tp->s.threads_max; i ++) {
@@ -1222,6 +1225,7 @@ tp_udata_get(tp_p tp) {
 
 int
 tp_threads_create(tp_p tp, const int skip_first) {
+	int error, ret_error = 0;
 	tpt_p tpt;
 
 	if (NULL == tp)
@@ -1234,13 +1238,14 @@ tp_threads_create(tp_p tp, const int skip_first) {
 		if (NULL == tpt->tp)
 			continue;
 		tpt->state = TP_THREAD_STATE_STARTING;
-		if (0 == pthread_create_eagain(&tpt->pt_id, NULL,
-		    tp_thread_proc, tpt)) {
-		} else {
+		error = pthread_create_eagain(&tpt->pt_id, NULL,
+		    tp_thread_proc, tpt);
+		if (0 != error) { /* Report, but try to start other threads. */
 			tpt->state = TP_THREAD_STATE_STOP;
+			ret_error = error;
 		}
 	}
-	return (0);
+	return (ret_error);
 }
 
 int
